@@ -27,10 +27,10 @@ ASSUMPTIONS = ["tolerance(iii) = 10 x (measured max coefficient error) x sqrt(nn
                "instances where force balance does not determine the tensions up to scale (nullity != 1) give no verdict",
                "with k=0 resampling is taken with replace_short_edges=False (contracting border edges moves the far end of inferred interfaces)",
                "a two-point interface of a Moebius image is a chord, not an arc: k=0 is only combined with straight tissues"]
-REQUIRED_TAGS = {"all": ["verdict", "resampled", "solver:lsq", "solver:lsq_linear", "fit:taubinSVD", "straight", "curved", "path:inv", "path:nnls-fallback", "subtissue_verdict", "major_arc", "mixed_point_counts"]}
+REQUIRED_TAGS = {"all": ["verdict", "resampled", "solver:lsq", "solver:lsq_linear", "fit:taubinSVD", "straight", "curved", "path:inv", "path:nnls-fallback", "subtissue_verdict", "major_arc", "mixed_point_counts", "verdict_with_negatives_allowed"]}
 
 
-def judge(at, cm, r, method, fit, viol, known, tags):
+def judge(at, cm, r, method, fit, viol, known, tags, neg=False):
     with fsutil.ref_math():
         ref = RT.reference_system(at, cm)
         if not ref["rows"] or not ref["cols"]:
@@ -123,10 +123,15 @@ def judge(at, cm, r, method, fit, viol, known, tags):
         R_x = float(np.linalg.norm(A_fs @ z - b_fs))
         zr = RN.lawson_hanson(A_fs, b_fs)
         R_ref = float(np.linalg.norm(A_fs @ zr - b_fs))
-        if x.min() < -1e-9 or not np.all(np.isfinite(x)):
+        if neg and np.all(np.isfinite(x)) and x.min() < -1e-9:
+            # negatives were allowed (the library's default): the exact solution of a square system may be negative where the
+            # assembled matrix is off (F1); no optimum verdict, the physics verdict below still applies where the matrix is right
+            tags.append("negatives_allowed_and_returned")
+            ok = True
+        elif x.min() < -1e-9 or not np.all(np.isfinite(x)):
             viol.append({"what": "negative or non-finite tension reported", "detail": float(x.min())})
             return True
-        if method is None:
+        elif method is None:
             ok = RN.kkt(A_fs, b_fs, z, 1e-8 * max(1.0, len(x)))["ok"]
         elif method == "lsq_linear" and not RN.consistent(r.M):
             ok = True       # normal-equation back-end: only promised on consistent systems
@@ -272,16 +277,21 @@ class SubTissues:
 
     def evaluate(self, d):
         sub = T.sub_tissue(self.at, d["cells"])
-        mobspec, k, method, fit = self.configs[d["cfg"]]
+        mobspec, k, method, fit = self.configs[d["cfg"]][:4]
+        neg = len(self.configs[d["cfg"]]) > 4 and self.configs[d["cfg"]][4]
         cm = SC.make_cmap(mobspec, 0.7, (0, 0), 1.0, SC.extent_of(self.at))
         viol, known, tags = [], [], []
         ref = RT.reference_system(sub, cm)
         if not ref["rows"] or RT.nullity(ref["M"]) != 1:
             return {"key": "%s|%s" % (",".join(d["cells"]), d["cfg"]), "viol": [], "tags": ["vacuous:subtissue"], "cls": "vac", "outdom": True}
-        r = SC.solve_static(sub, k=k, cmap=cm, fit=fit, method=method, allow_negatives=False)
-        verdict = judge(sub, cm, r, method, fit, viol, known, tags)
+        r = SC.solve_static(sub, k=k, cmap=cm, fit=fit, method=method, allow_negatives=bool(neg))
+        verdict = judge(sub, cm, r, method, fit, viol, known, tags, neg=bool(neg))
         if "verdict" in tags:
             tags.append("subtissue_verdict")
+            if neg:
+                tags.append("verdict_with_negatives_allowed")
+                if r.exc is None and getattr(r, "record", None) and r.record["path"] == "inv":
+                    tags.append("verdict_on_exact_inversion_with_negatives_allowed")
         key = "%s|%s" % (",".join(d["cells"]), d["cfg"])
         return {"key": key, "viol": viol, "known": known, "tags": sorted(set(tags)), "cls": "%d/%d/%s" % (len(d["cells"]), len(ref["cols"]), d["cfg"]),
                 "nontrivial": verdict, "outdom": not verdict}
@@ -371,9 +381,10 @@ def build(tier, seed):
     if tier == "quick":
         return [Geometry(["v5x5", "v6x5"], 2, 8, seed),
                 Geometry(["v6x6p%d" % (seed + 1)], 1, 8, seed),
-                SubTissues("v5x5", [(["m", 0.05, 0.02], 3, None, "dlite"), (["id"], 0, None, "dlite")]),
+                SubTissues("v5x5", [(["m", 0.05, 0.02], 3, None, "dlite"), (["id"], 0, None, "dlite"), (["m", 0.05, 0.02], 2, None, "taubinSVD", True)]),
                 MajorArcs("raw5x5j30p0", "16", 16)]
     return [Geometry(["v5x5"], 3, 12, seed),
             Geometry(["v6x5", "v6x6", "v7x6p%d" % (seed + 1)], 2, 24, seed),
-            SubTissues("v6x5", [(["m", 0.05, 0.02], 3, None, "dlite"), (["id"], 0, None, "dlite"), (["mc", 0.12, 0.05], 5, "lsq", "taubinSVD")]),
+            SubTissues("v6x5", [(["m", 0.05, 0.02], 3, None, "dlite"), (["id"], 0, None, "dlite"), (["mc", 0.12, 0.05], 5, "lsq", "taubinSVD"),
+                                (["m", 0.05, 0.02], 2, None, "taubinSVD", True), (["id"], 1, None, "dlite", True)]),
             MajorArcs("raw5x5j30p0", "16", 16), MajorArcs("raw5x5j30p0", "16", 12)]
